@@ -86,8 +86,6 @@ class SimWorld(object):
 
     def __init__(self, sim, netcfg=None, knobs=None, urandom=None, urandom_seed=0):
         self.sim = sim
-        sim.wall_offset = 0.0
-        sim.wall_clock = lambda: sim.epoch + sim.now + sim.wall_offset
         sim.role_for_thread = self._role_for_thread
         self.threading = st.make_threading(sim)
         self.queue = st.make_queue(sim, self.threading)
